@@ -20,8 +20,10 @@ process(), 2 unary result at the client, 3 stream output at the client), the cli
 from __future__ import annotations
 
 import contextlib
+import functools
 import hashlib
 import struct
+import time
 import threading
 from dataclasses import dataclass
 from typing import Any, Protocol
@@ -69,18 +71,26 @@ SCHEMAS: dict[str, pa.Schema] = {
 SHAPES = list(SCHEMAS)
 
 
+def _int_array(values: bytes, typ: pa.DataType) -> pa.Array:
+    return pa.Array.from_buffers(typ, len(values) // (typ.bit_width // 8), [None, pa.py_buffer(values)])
+
+
+@functools.lru_cache(maxsize=512)
 def make_batch(shape: str, n: int, tag: int) -> pa.RecordBatch:
+    """The batch a spec stands for (immutable, cached; built from buffers, not from Python lists)."""
     sch = SCHEMAS[shape]
     t = tag % 100
-    if shape in ("i8", "i64"):
-        return pa.RecordBatch.from_pydict({"v": [t] * n}, schema=sch)
+    if shape == "i8":
+        return pa.RecordBatch.from_arrays([_int_array(bytes([t]) * n, pa.int8())], schema=sch)
+    if shape == "i64":
+        return pa.RecordBatch.from_arrays([_int_array(t.to_bytes(8, "little") * n, pa.int64())], schema=sch)
     words = [f"w{t}_{k}" for k in range(3)]
-    if shape == "dict":
-        arr = pa.DictionaryArray.from_arrays(pa.array([i % 3 for i in range(n)], type=pa.int8()), pa.array(words))
-        return pa.RecordBatch.from_arrays([arr], schema=sch)
-    if shape == "mix":
-        arr = pa.DictionaryArray.from_arrays(pa.array([i % 3 for i in range(n)], type=pa.int8()), pa.array(words))
-        return pa.RecordBatch.from_arrays([pa.array([t] * n, type=pa.int8()), arr], schema=sch)
+    if shape in ("dict", "mix"):
+        idx = _int_array((bytes([0, 1, 2]) * (n // 3 + 1))[:n], pa.int8())
+        arr = pa.DictionaryArray.from_arrays(idx, pa.array(words))
+        if shape == "dict":
+            return pa.RecordBatch.from_arrays([arr], schema=sch)
+        return pa.RecordBatch.from_arrays([_int_array(bytes([t]) * n, pa.int8()), arr], schema=sch)
     if shape == "ldict":
         # the dictionary grows with the tag: large tags make the dictionary messages outgrow the 4096-byte slack
         big = [f"w{t}_{k:05d}" for k in range(3 + (600 if tag >= 100 else 0))]
@@ -88,27 +98,43 @@ def make_batch(shape: str, n: int, tag: int) -> pa.RecordBatch:
         arr = pa.ListArray.from_arrays(pa.array(list(range(0, 2 * n + 1, 2)), type=pa.int32()), values)
         return pa.RecordBatch.from_arrays([arr], schema=sch)
     if shape == "zero":
-        return pa.RecordBatch.from_struct_array(pa.array([{}] * n, type=pa.struct([])))
+        return pa.RecordBatch.from_arrays([_int_array(bytes(n), pa.int8())], names=["x"]).select([])
     if shape == "wide":
-        return pa.RecordBatch.from_arrays([pa.array([t] * n, type=pa.int8()) for _ in range(_WIDE)], schema=sch)
+        col = _int_array(bytes([t]) * n, pa.int8())
+        return pa.RecordBatch.from_arrays([col for _ in range(_WIDE)], schema=sch)
     raise ValueError(shape)
+
+
+def _hash_array(h: Any, col: pa.Array) -> Any:
+    """Feed a canonical rendering of the values of ``col`` to ``h``; returns a short preview."""
+    typ = col.type
+    if col.null_count == 0 and pa.types.is_integer(typ):
+        w = typ.bit_width // 8  # the values buffer of a null-free integer array is canonical
+        h.update(b"raw:" + str(typ).encode())
+        h.update(memoryview(col.buffers()[1])[col.offset * w : (col.offset + len(col)) * w])
+        return col.slice(0, 2).to_pylist()
+    if pa.types.is_dictionary(typ) and col.null_count == 0 and col.dictionary.null_count == 0:
+        # what the application sees are the decoded values (the type, with its index width, is in the schema string)
+        h.update(b"dict:")
+        return _hash_array(h, col.cast(typ.value_type))
+    if col.null_count == 0 and col.offset == 0 and (pa.types.is_string(typ) or pa.types.is_binary(typ)):
+        _, offsets, data = col.buffers()
+        n = len(col)
+        end = int.from_bytes(memoryview(offsets)[4 * n : 4 * n + 4], "little") if n else 0
+        h.update(b"str:" + str(typ).encode())
+        h.update(memoryview(offsets)[: 4 * (n + 1)])
+        if data is not None:
+            h.update(memoryview(data)[:end])
+        return col.slice(0, 2).to_pylist()
+    vals = col.to_pylist()
+    h.update(b"py:" + repr(vals).encode())
+    return vals[:2]
 
 
 def content_key(batch: pa.RecordBatch) -> str:
     """Everything of a batch an application can see (schema incl. types, row count, every value), condensed."""
     h = hashlib.sha1()
-    head = []
-    for i in range(batch.num_columns):
-        col = batch.column(i)
-        if pa.types.is_integer(col.type) and col.null_count == 0:
-            w = col.type.bit_width // 8  # the values buffer of a null-free integer array is canonical
-            h.update(b"raw:" + str(col.type).encode())
-            h.update(memoryview(col.buffers()[1])[col.offset * w : (col.offset + len(col)) * w])
-            head.append(col.slice(0, 2).to_pylist())
-        else:
-            vals = col.to_pylist()
-            h.update(b"py:" + repr(vals).encode())
-            head.append(vals[:2])
+    head = [_hash_array(h, batch.column(i)) for i in range(batch.num_columns)]
     return f"{batch.schema.to_string(show_field_metadata=True, show_schema_metadata=True)[:200]}|{batch.num_rows}|{repr(head[:2])[:60]}|{h.hexdigest()[:20]}"
 
 
@@ -156,9 +182,16 @@ def measure(batch: pa.RecordBatch) -> dict[str, Any]:
 # ---------------------------------------------------------------------------
 PROGRAMS: dict[int, dict[str, Any]] = {}
 SERVER_OBS: list[list[Any]] = []
+_PROGRESS = [0.0]  # monotonic time of the last completed unit of work (either side); read by the watchdog
+
+
+def _tick() -> None:
+    _PROGRESS[0] = time.monotonic()
+
 
 
 def _turn(state: Any, batch_in: AnnotatedBatch | None, out: OutputCollector, ctx: CallContext) -> None:
+    _tick()
     prog = PROGRAMS[state.pid]
     steps = prog["steps"]
     i = state.i
@@ -219,6 +252,7 @@ class C29Svc(Protocol):
 
 class C29Impl:
     def un(self, pid: int, pad: bytes, ctx: CallContext) -> bytes:
+        _tick()
         prog = PROGRAMS[pid]
         SERVER_OBS.append([0, req_key(len(pad), pad == bytes([REQ_FILL]) * len(pad))])
         if prog.get("exclog"):
@@ -339,7 +373,7 @@ def _raw_unary(ct: Any, seg: Any, pid: int, pad: bytes) -> Any:
     return _read_unary_response(reader, info, on_log, None, shm=seg)
 
 
-def run_history(history: list[Any], *, use_shm: bool, seg_size: int = 1 << 20, thresh: int = 1, timeout: float = 30.0) -> dict[str, Any]:
+def run_history(history: list[Any], *, use_shm: bool, seg_size: int = 1 << 20, thresh: int = 1, timeout: float = 90.0, hard_cap: float = 1800.0) -> dict[str, Any]:
     """Run one history on a fresh connection.  Returns per-call records and the segment's actual size."""
     res: dict[str, Any] = {"calls": [], "total": None, "hang": False, "server_died": None, "final_table": None, "stale": []}
     seg = None
@@ -406,6 +440,7 @@ def run_history(history: list[Any], *, use_shm: bool, seg_size: int = 1 << 20, t
                                 key = content_key(ab.batch)
                                 trace.append(["batch", key, _app_meta(ab.custom_metadata)])
                                 deliv.append([3, key])
+                                _tick()
                                 if t.get("rel"):
                                     ab.release()
                                 elif _via_shm(ab):
@@ -429,6 +464,7 @@ def run_history(history: list[Any], *, use_shm: bool, seg_size: int = 1 << 20, t
                 for h in held:
                     if raw_digest(h.ab.batch) != h.digest:
                         res["stale"].append([ci, h.key[:80]])
+                _tick()
                 srv = [list(x) for x in SERVER_OBS]
                 res["calls"].append(
                     {
@@ -453,10 +489,28 @@ def run_history(history: list[Any], *, use_shm: bool, seg_size: int = 1 << 20, t
             exc.append(e)
 
     t = threading.Thread(target=guarded, daemon=True, name="c29-client")
+    _tick()
     t.start()
-    t.join(timeout)
-    if t.is_alive():
-        res["hang"] = True
+    # Watchdog: a hang is "no unit of work (call, turn, delivered batch) completed on either side for `timeout`
+    # seconds while the process hardly used any CPU" -- a history that is merely slow on a loaded machine keeps
+    # ticking or keeps burning CPU and is never reported.  `hard_cap` bounds the whole history.
+    t0 = time.monotonic()
+    mark, cpu_mark = _PROGRESS[0], time.process_time()
+    while t.is_alive():
+        t.join(0.5)
+        now = time.monotonic()
+        if _PROGRESS[0] != mark:
+            mark, cpu_mark = _PROGRESS[0], time.process_time()
+        elif now - mark > timeout:
+            if time.process_time() - cpu_mark < 0.02 * (now - mark):
+                res["hang"] = True
+                res["hang_detail"] = f"no progress for {now - mark:.0f}s, {time.process_time() - cpu_mark:.1f}s CPU in that window, {len(res['calls'])} calls done"
+                break
+            mark, cpu_mark = now, time.process_time()  # still computing: open a new window
+        if now - t0 > hard_cap:
+            res["hang"] = True
+            res["hang_detail"] = f"history exceeded {hard_cap:.0f}s ({len(res['calls'])} calls done)"
+            break
     with contextlib.suppress(Exception):
         ct.close()
     th.join(timeout=3)
